@@ -128,7 +128,7 @@ func (m *MessageServerKeyExchange) Unmarshal(data []byte) error { //nolint:cyclo
 
 	// Anon connection doesn't contains hashAlgorithm, signatureAlgorithm, signature
 	if len(data) == offset {
-		return nil
+		return m.validatePublicKey()
 	} else if len(data) <= offset+1 {
 		return dtlserrors.ErrBufferTooSmall
 	}
@@ -154,6 +154,17 @@ func (m *MessageServerKeyExchange) Unmarshal(data []byte) error { //nolint:cyclo
 		return dtlserrors.ErrBufferTooSmall
 	}
 	m.Signature = bytes.Clone(data[offset : offset+signatureLength])
+
+	return m.validatePublicKey()
+}
+
+// validatePublicKey rejects an empty ECDH public key in an otherwise well-formed message: ECPoint
+// is opaque point <1..2^8-1> (RFC 8422 5.4), and Marshal writes no ECDH parameters at all for an
+// empty key, so such a message would not re-encode.
+func (m *MessageServerKeyExchange) validatePublicKey() error {
+	if len(m.PublicKey) == 0 {
+		return dtlserrors.ErrLengthMismatch
+	}
 
 	return nil
 }
